@@ -128,9 +128,9 @@ func c15R5(c *Ctx) {
 }
 
 type natLoop struct {
-	header *ssa.BasicBlock
+	header  *ssa.BasicBlock
 	latches []*ssa.BasicBlock
-	body   map[*ssa.BasicBlock]bool
+	body    map[*ssa.BasicBlock]bool
 }
 
 func naturalLoops(fn *ssa.Function) []*natLoop {
